@@ -270,8 +270,10 @@ fn run_sequence(single: bool, read_only: bool, seq: &[(usize, bool)], alpha: &[(
     let mut verdict = None;
     let mut r = liveness_probe(p.addr);
     let non_request = |i: usize| alpha[i].1.len() < 2 || !matches!(u16::from_be_bytes([alpha[i].1[0], alpha[i].1[1]]), 1 | 2);
+    let mut same_endpoint_probe = false;
     if r.is_ok() && after_transfer && seq.iter().all(|(i, other)| !*other && non_request(*i)) {
         // ... and so must a NEW request from the endpoint that completed a transfer before and then sent the stray datagrams
+        same_endpoint_probe = true;
         r = liveness_probe_from(&s1, p.addr).map_err(|e| format!("second request from the endpoint that had completed a transfer: {e}"));
     }
     let exited = p.child.try_wait().ok().flatten();
@@ -279,7 +281,13 @@ fn run_sequence(single: bool, read_only: bool, seq: &[(usize, bool)], alpha: &[(
         verdict = Some(("terminated".to_string(), format!("tftpd exited with {st} (probe: {:?})", r.err())));
     } else if let Err(e) = r {
         // reproduce the probe once before calling it wedged
-        let r2 = liveness_probe(p.addr);
+        let r2 = if same_endpoint_probe {
+            // end whatever the failed attempt left open, let the server settle, then ask again from the same endpoint
+            std::thread::sleep(Duration::from_millis(50));
+            liveness_probe_from(&s1, p.addr)
+        } else {
+            liveness_probe(p.addr)
+        };
         let exited = p.child.try_wait().ok().flatten();
         if let Some(st) = exited {
             verdict = Some(("terminated".to_string(), format!("tftpd exited with {st}")));
